@@ -61,6 +61,7 @@ def record_run(rng, tid):
     x0 = prob["x0"]
     maxvol = None if rng.random() < 0.3 else float(x0.sum() * rng.choice([0.7, 1.0, 1.3]))
     target = x0.sum() if maxvol is None else maxvol
+    l1l2tol = float(rng.choice([1e-4, 1e-4, 1e-3, 1e-6]))     # documented internal parameter: part of the quantified configurations
     events, designs = [], []
     orig = net.response
 
@@ -75,7 +76,7 @@ def record_run(rng, tid):
             lo_sum = np.maximum(xmin_v, xp - move).sum()
             hi_sum = np.minimum(xmax_v, xp + move).sum()
             if lo_sum <= target <= hi_sum:
-                v_lo, v_hi = volume_bracket(xp, c, xmin_v, xmax_v, move, target)
+                v_lo, v_hi = volume_bracket(xp, c, xmin_v, xmax_v, move, target, l1l2tol=l1l2tol)
                 okvol = bool(v_lo - 1e-9 <= x.sum() <= v_hi + 1e-9)
                 info = dict(volume=float(x.sum()), bracket=[float(v_lo), float(v_hi)], target=float(target))
         designs.append(x)
@@ -87,7 +88,7 @@ def record_run(rng, tid):
         with warnings.catch_warnings():
             warnings.simplefilter("ignore")
             pym.minimize_oc(net, prob["sigs"], obj, xmin=xmin_arg, xmax=xmax_arg, move=move, maxvol=maxvol, maxit=int(rng.choice([30, 60])),
-                            tolx=1e-6, tolf=1e-9, verbosity=0)
+                            tolx=1e-6, tolf=1e-9, l1l2tol=l1l2tol, verbosity=0)
     except Exception as e:
         err = "%s: %s" % (type(e).__name__, str(e)[:200])
     xfin = designs[-1] if designs else x0
@@ -112,7 +113,7 @@ def run(chk, replay=None):
         traces = [replay["trace"]]
     else:
         rng = np.random.default_rng(chk.seed + 55)
-        traces = [record_run(rng, t + 1) for t in range(300 if thorough else 30)]
+        traces = [record_run(rng, t + 1) for t in range(400 if thorough else 80)]
     verdict = c10.validate(chk, traces)
     for tr in traces:
         chk.add_trace()
